@@ -1351,12 +1351,9 @@ Proof.
   assert (Hrest : forall msgv, opt_wf (dm_gmn dm) msgv ->
     wpre (if negb compressed then parse_data_fields o dm (known_msg (dm_gmn dm)) msgv else
           s0 <- get_st ;;
-          if ds_ts s0 =? 0 then parse_data_fields o dm (known_msg (dm_gmn dm)) msgv else
-          put_st (if (ds_ts s0 + (N.land b c_compressedTimeMask + 32 - ds_lastoff s0) mod 32) mod 2 ^ 32 =? 0
-                  then with_quirk (with_time s0 ((ds_ts s0 + (N.land b c_compressedTimeMask + 32 - ds_lastoff s0) mod 32) mod 2 ^ 32)
-                                             (N.land b c_compressedTimeMask)) Q_TS_ZERO
-                  else with_time s0 ((ds_ts s0 + (N.land b c_compressedTimeMask + 32 - ds_lastoff s0) mod 32) mod 2 ^ 32)
-                                    (N.land b c_compressedTimeMask)) ;;;
+          if negb (ds_hasts s0) then parse_data_fields o dm (known_msg (dm_gmn dm)) msgv else
+          put_st (with_time s0 ((ds_ts s0 + (N.land b c_compressedTimeMask + 32 - ds_lastoff s0) mod 32) mod 2 ^ 32)
+                               (N.land b c_compressedTimeMask)) ;;;
           match get_field (dm_gmn dm) c_fieldNumTimeStamp with
           | Some p =>
               match msgv with
@@ -1380,7 +1377,7 @@ Proof.
                    (fun om => match om with Some m => msg_wf (m_num m) m = true | None => True end)).
     { intros mv Hmv. eapply wpre_mono; [exact HQ|]. now apply parse_data_fields_wf. }
     destruct (negb compressed); [now apply Hpdf|].
-    cbn [get_st bind wpre]. intros s0. destruct (ds_ts s0 =? 0); [now apply Hpdf|].
+    cbn [get_st bind wpre]. intros s0. destruct (negb (ds_hasts s0)); [now apply Hpdf|].
     cbn [put_st bind wpre].
     destruct (get_field (dm_gmn dm) c_fieldNumTimeStamp) as [p|]; [|now apply Hpdf].
     destruct msgv as [m|]; [|exact I]. destruct (field_type (dm_gmn dm) (pf_sindex p)) as [ty|] eqn:Ety; [|exact I].
